@@ -381,7 +381,7 @@ def run_property(ctx, pid):
     ctx.add_run("events recorded from the real code", direction_A=nA, direction_B=nB)
 
     # ---- judge every event with WireTrace
-    par = 3 if quick else 6
+    par = 8
     parts = []
     for p in paths:
         parts += split_file(p, par if os.path.getsize(p) > (4 << 20) else 1)
@@ -427,7 +427,7 @@ def deep_model(ctx, pid, parallel=8, timeout=3000):
                          _cfg(ctx, "MC_deep_hf_%d.cfg" % lo, "deep", ["hf"], lo, lo + 255)))
         jobs.append(("header byte patterns (deep boundary sets), packets", _cfg(ctx, "MC_deep_hb.cfg", "deep", ["hb", "rt"], 0, 1023)))
     else:
-        for fam in ("short6", "short7", "cor6", "cor7", "heur6"):
+        for fam in ("short6", "short7", "cor6", "cor7", "heur6", "comp6", "comp7"):
             jobs.append(("reader totality / re-read law on the model: %s (deep)" % fam,
                          _cfg(ctx, "MC_deep_%s.cfg" % fam, "deep", [fam], 0, 1023)))
     import concurrent.futures as cf
